@@ -7,7 +7,7 @@ import numpy as np
 from dimarray.config import get_option
 from dimarray.tools import is_DimArray
 from dimarray.core.axes import Axes, Axis
-from dimarray.core.indexing import locate_many
+from dimarray.core.indexing import locate_many, _maybe_cast_type
 
 __all__ = ["broadcast_arrays", "align", "stack", "concatenate"]
 
@@ -611,6 +611,21 @@ def reindex_axis(self, values, axis=0, fill_value=np.nan, raise_error=False, met
 
     # Get indices
     ax = self.axes[axis]
+
+    # empty axis: there is nothing to take from, every new label is missing
+    if ax.size == 0 and values.size > 0:
+        if raise_error:
+            raise IndexError("Some values where not found in the axis: {}".format(values))
+        pos = self.dims.index(ax.name)
+        shape = list(self.shape)
+        shape[pos] = values.size
+        newvalues = np.empty(shape, dtype=_maybe_cast_type(self.values, fill_value).dtype)
+        newvalues.fill(fill_value)
+        newaxes = [axx.copy() if axx.name != ax.name else Axis(values, ax.name, **ax.attrs) for axx in self.axes]
+        newobj = self._constructor(newvalues, newaxes)
+        newobj.attrs.update(self.attrs)
+        return newobj
+
     # indices = ax.loc(values, mode='clip', side=method)
     indices = locate_many(ax.values, values, side=method or 'left')
     newobj = self.take_axis(indices, axis, indexing='position')
